@@ -50,7 +50,7 @@ REAL_VS_STUB = {
     'real': ['optree engine serialization + registry re-binding', 'CPython pickle / copy', 'a real second interpreter process for restart histories'],
     'stub_or_simulator_owned': ['registration log and its drift', 'custom flatten/unflatten callables', 'GC timing', 'which history happens between dump and load'],
 }
-EXPECTED_PROBES = ('early-load-before-drift', 'history:drift-reregister-other', 'derived:child', 'derived:compose', 'derived:ctor', 'history:same-process', 'history:gc-between', 'history:drift-unregister', 'history:drift-reregister-same',
+EXPECTED_PROBES = ('rejected-load-before', 'early-load-before-drift', 'history:drift-reregister-other', 'derived:child', 'derived:compose', 'derived:ctor', 'history:same-process', 'history:gc-between', 'history:drift-unregister', 'history:drift-reregister-same',
                    'history:drift-global-only', 'history:restart-same', 'history:restart-missing', 'history:restart-other-ns',
                    'load:refused', 'load:ok', 'mentions-custom', 'mode:insertion', 'proto:2', 'proto:3', 'proto:4', 'proto:5')
 
@@ -76,8 +76,13 @@ def warmup():
     class IO:
         def progress(self, o):
             pass
+    found = []
     for i in range(8):
-        run_job({'i': i, 'seed': 555, '_warm': True}, IO())
+        out = run_job({'i': i, 'seed': 555, '_warm': True}, IO())
+        found.extend(out.get('violations') or [])  # a warm-up history is a history: what it finds counts
+        if found:
+            break
+    return found
 
 
 def mode_cm(mode_ns):
@@ -263,6 +268,32 @@ def run_job(job, io):
                     optree.register_pytree_node(CLS[cname], f.flatten, f.unflatten, namespace=GLOBAL)
                     live[(cname, None)] = f
             oplog.append('drift %s %r' % drifted)
+        if tape.draw(2, 'rejected-loads'):
+            # loads that MUST be refused (a torn node list, a flipped count) happen first: whatever scratch state the loader
+            # keeps must not outlive a refused load -- the loads below have to behave as if these had never been attempted
+            n_refused = 0
+            for it in items[:3]:
+                st = it['spec'].__getstate__()
+                nodes = list(st[0])
+                variants = [nodes + [nodes[0]]]
+                if len(nodes) > 1:
+                    variants.append(nodes[:-1])
+                    mid = list(nodes[len(nodes) // 2])
+                    mid[5] = mid[5] + 1
+                    variants.append(nodes[:len(nodes) // 2] + [tuple(mid)] + nodes[len(nodes) // 2 + 1:])
+                    last = list(nodes[-1])
+                    last[1] = last[1] + 1
+                    variants.append(nodes[:-1] + [tuple(last)])
+                for v in variants:
+                    sp_bad = optree.PyTreeSpec.__new__(optree.PyTreeSpec)
+                    try:
+                        sp_bad.__setstate__((tuple(v), st[1], st[2]))
+                    except Exception:  # noqa: BLE001
+                        n_refused += 1
+                    sp_bad = None
+            probes['rejected-load-before'] += 1
+            probes['rejected-loads'] += n_refused
+            oplog.append('rejected loads first: %d' % n_refused)
         for it in items:
             site = 'load:%s' % history
             io.progress({'site': site, 'tape': tape.values})
@@ -332,7 +363,13 @@ def run_job(job, io):
                     keys.add(key_for(it, 'refused'))
         # after refused loads the process must still work
         s = optree.tree_structure({'z': (1, 2), 'a': [3]})
-        if pickle.loads(pickle.dumps(s)) != s:
+        try:
+            healthy = pickle.loads(pickle.dumps(s)) == s
+        except Exception as e:  # noqa: BLE001
+            healthy = False
+            if not violations:
+                viol('after-effect', 'load:health', 'an unrelated treespec can no longer be unpickled after the history: %s: %s' % (type(e).__name__, e))
+        if not healthy:
             viol('after-effect', 'load:health', 'an unrelated treespec no longer round-trips after the history')
     else:
         # ---- RESTART: only the bytes (and the recipe to rebuild trees) survive
